@@ -48,6 +48,14 @@ type CloseCase struct {
 	ReleaseUS int `json:"release_us"`
 	// Closers: concurrent Close calls.
 	Closers int `json:"closers"`
+	// Stall (rhp4 only): 0 = idle streams are closed by the client together with
+	// the release of the held handlers (the server runs with its default RPC
+	// timeout); k > 0 = the server runs with WithRPCTimeout(400 ms), no handler is
+	// held, and every idle stream sends k-1 bytes (0..15: part of the RPC id, 16:
+	// the whole id of an RPC that expects a request, 17..: id + part of the
+	// request) and then stays silent and OPEN: only the server's own deadline can
+	// end its handler.
+	Stall int `json:"stall,omitempty"`
 	// SpreadUS: the racing work (handshakes, connects, reorgs) starts at
 	// i*SpreadUS after the moment Close is issued minus SpreadUS*n/2.
 	SpreadUS int `json:"spread_us"`
@@ -62,6 +70,10 @@ func genClose(t *rapid.T) CloseCase {
 		CloseDelayUS: rapid.SampledFrom([]int{0, 0, 20, 200, 2000}).Draw(t, "closedelay"),
 		Closers:      rapid.IntRange(1, 3).Draw(t, "closers"),
 		SpreadUS:     rapid.SampledFrom([]int{0, 10, 100, 400}).Draw(t, "spread"),
+	}
+	if c.Comp == "rhp4" && rapid.Bool().Draw(t, "stallmode") {
+		c.Stall = 1 + rapid.SampledFrom([]int{0, 1, 2, 7, 8, 15, 16, 17, 19, 40}).Draw(t, "stallbytes")
+		c.Idle = max(1, c.Idle)
 	}
 	switch rapid.IntRange(0, 3).Draw(t, "release") {
 	case 0:
@@ -470,7 +482,15 @@ func runCloseRHP4(c CloseCase, cs *kit.CaseStats) error {
 	defer node.Close()
 	gate := p2px.NewGate()
 	hostKey := types.NewPrivateKeyFromSeed(make([]byte, 32))
-	srv := rhp.NewServer(hostKey, node.CM, nil, nil, gatedSettings{gate}, nil)
+	var sopts []rhp.ServerOption
+	if c.Stall > 0 {
+		// the handlers of silent streams end on the server's own deadline; the
+		// 30 s watchdog of Close is 75 times that
+		sopts = append(sopts, rhp.WithRPCTimeout(400*time.Millisecond))
+		c.Blocked = 0
+		cs.Classf("rhp4:silent-open-streams,bytes-sent=%d", c.Stall-1)
+	}
+	srv := rhp.NewServer(hostKey, node.CM, nil, nil, gatedSettings{gate}, nil, sopts...)
 	mux := p2px.NewMemMux(hostKey.PublicKey())
 	served := make(chan error, 1)
 	go func() { served <- srv.Serve(mux, zap.NewNop()) }()
@@ -510,9 +530,18 @@ func runCloseRHP4(c CloseCase, cs *kit.CaseStats) error {
 		if err != nil {
 			return fmt.Errorf("INFRA: %v", err)
 		}
+		if c.Stall > 1 {
+			// part of (or all of) the id of an RPC that expects a request body,
+			// followed by zero bytes of a request that never completes
+			msg := make([]byte, c.Stall-1)
+			id := proto4.RPCReadSectorID
+			copy(msg, id[:])
+			s.SetWriteDeadline(time.Now().Add(10 * time.Second))
+			s.Write(msg)
+		}
 		idle = append(idle, s)
 	}
-	if c.Idle > 0 {
+	if c.Idle > 0 && c.Stall == 0 {
 		// wait until their handlers exist
 		deadline := time.Now().Add(closeWatchdog)
 		for len(p2px.StacksWith("rhp/v4.(*Server).handleHostStream")) < c.Idle+c.Blocked {
@@ -532,6 +561,9 @@ func runCloseRHP4(c CloseCase, cs *kit.CaseStats) error {
 	}}
 	// release the idle streams at the same moment as the gate: wrap Open
 	releaseIdle := func() {
+		if c.Stall > 0 {
+			return // silent streams stay open: the server has to end them itself
+		}
 		if idleClosed.CompareAndSwap(false, true) {
 			for _, s := range idle {
 				s.Close()
@@ -554,9 +586,15 @@ func runCloseRHP4(c CloseCase, cs *kit.CaseStats) error {
 	<-relDone
 	if !ok {
 		parked := p2px.StacksWith("coreutils/rhp/v4.", "coreutils/threadgroup.")
+		if c.Stall > 0 {
+			return fmt.Errorf("rhp4 Server.Close did not return within %v although the server runs with WithRPCTimeout(400ms): %d stream(s) that sent %d byte(s) and then stayed silent (connection open) keep their handlers alive; goroutines inside rhp/v4 / threadgroup:\n%s", closeWatchdog, len(idle), c.Stall-1, p2px.ClipStacks(parked, 12))
+		}
 		return fmt.Errorf("rhp4 Server.Close did not return within %v after the held handlers were released and idle streams closed; goroutines inside rhp/v4 / threadgroup:\n%s", closeWatchdog, p2px.ClipStacks(parked, 12))
 	}
 	closed = true
+	for _, st := range idle {
+		st.Close() // (silent streams: only now, after Close has returned)
+	}
 	rpcs.Wait()
 	if int(answered.Load()) != c.Blocked {
 		run.fail("%d RPCs were in flight when Close was issued, only %d were answered (%d failed): Close must wait for in-flight handlers", c.Blocked, answered.Load(), failed.Load())
